@@ -79,6 +79,19 @@ def gen(tier, rng):
                 parts.append(nal[i:i + k])
                 i += k
             cases.append("bits %s %s" % (nal_src(parts, rng.random() < 0.7), ",".join(ops)))
+    # a failed Exp-Golomb read (more than 31 leading zeros) between queries: the reader goes on behind the codeword's 1 bit
+    for _ in range(300 if tier == "quick" else 6000):
+        pre = bytes(rng.choice([0x80, 0xff, 0x01, 0x40]) for _ in range(rng.randrange(0, 2)))
+        rbsp = pre + bytes(rng.choice([4, 5, 6, 9])) + bytes([rng.choice([0x80, 0x40, 0x01, 0x81, 0xc0])]) + \
+            bytes(rng.choice([0, 0, 0x80, 0x01]) for _ in range(rng.randrange(0, 4)))
+        ops = [rng.choice(["m", "b", "u8.%d" % rng.randrange(1, 9)]) for _ in range(rng.randrange(1, 3))]
+        ops += [rng.choice(["ue", "se"]), "m", rng.choice(["m", "ue", "b"]), rng.choice(["m", "f", "s"])]
+        if rng.random() < 0.5:
+            cases.append("bits raw:%s %s" % (hx(rbsp), ",".join(ops)))
+        else:
+            nal = bytes([0x68]) + escape(rbsp)
+            cut = rng.randrange(1, len(nal))
+            cases.append("bits %s %s" % (nal_src([nal[:cut], nal[cut:]], rng.random() < 0.7), ",".join(ops)))
     # long runs of trailing zero bytes (cabac_zero_words) after the stop bit, with and without a stray bit behind them:
     # run lengths around the powers of two (block-wise comparisons), contiguous and chunked
     for z in sorted({max(0, p + d) for p in (16, 32, 64, 128, 256, 512, 1024, 4096) for d in (-2, -1, 0, 1, 2)} | {100, 200, 300, 5000}):
